@@ -89,13 +89,15 @@ def breadth(CIJ, source):
     while Q:
         u = Q[0]
         ns, = np.where(CIJ[u, :])
+        # distance of the next layer; read once (a self-connection CIJ[u,u] must not shift it)
+        du1 = distance[u] + 1
         for v in ns:
             # this allows the source distance itself to be recorded
             if distance[v] == 0:
-                distance[v] = distance[u] + 1
+                distance[v] = du1
             if color[v] == white:
                 color[v] = gray
-                distance[v] = distance[u] + 1
+                distance[v] = du1
                 branch[v] = u
                 Q.append(v)
         Q = Q[1:]
